@@ -32,6 +32,7 @@ import (
 
 	"github.com/go-shiori/dom"
 	"github.com/markusmobius/go-domdistiller/data"
+	"github.com/markusmobius/go-domdistiller/internal/domutil"
 	"golang.org/x/net/html"
 )
 
@@ -70,7 +71,7 @@ func NewParser(root *html.Node, timingInfo *data.TimingInfo) *Parser {
 }
 
 func (ps *Parser) parse(root *html.Node) {
-	allProp := dom.QuerySelectorAll(root, "[itemprop],[itemscope]")
+	allProp := domutil.WithoutTemplateContent(dom.QuerySelectorAll(root, "[itemprop],[itemscope]"))
 
 	// Root node (html) is not included in the result of querySelectorAll, so need to
 	// handle it explicitly here.
@@ -81,7 +82,7 @@ func (ps *Parser) parse(root *html.Node) {
 
 	// As per http://schema.org/author (or http://schema.org/Article and search for
 	// "author" property), if <a> or <link> tags specify rel="author", extract it.
-	allProp = dom.QuerySelectorAll(root, "a[rel=author],link[rel=author]")
+	allProp = domutil.WithoutTemplateContent(dom.QuerySelectorAll(root, "a[rel=author],link[rel=author]"))
 	for _, prop := range allProp {
 		if ps.authorFromRel == "" {
 			ps.authorFromRel = ps.getAuthorFromRelAttribute(prop)
